@@ -86,6 +86,7 @@ def main(argv=None):
     tier = os.environ.get("VERIF_TIER", "quick")
     if "--tier" in argv:
         tier = argv[argv.index("--tier") + 1]
+    os.environ["VERIF_TIER"] = tier
     try:
         code = run_property(pid, tier)
     except SystemExit:
